@@ -1,0 +1,15 @@
+//go:build verif
+
+package config
+
+// Accessors for the verification harness under /verif (build tag "verif").
+// Nothing in this file is compiled into a normal build.
+
+import "github.com/urfave/cli/v2"
+
+// VerifGet is get: the Config with only the basic fields set (no logger,
+// proxy backend or TLS side effects).
+func VerifGet(ctx *cli.Context) (*Config, error) { return get(ctx) }
+
+// VerifValidate is validateConfig.
+func VerifValidate(c *Config) error { return validateConfig(c) }
